@@ -13,7 +13,8 @@ Inductive bmut := BFlip (pos bit : N) | BTrunc (pos : N) | BInject (pos : N) (da
 Inductive c18case :=
 | CFlow (mech dir : N) (maxsz : Z) (hb : option (N * N)) (steps : list c18step)
         (imuts : list imut) (bmuts : list bmut) (cuts : list N) (fb_tick : option N)
-| CSessions (mech dir : N) (msg : list cfr).
+| CSessions (mech dir : N) (msg : list cfr)
+| CReflect (mech dir warm : N) (msg : list cfr).   (* the victim's own next record played back to it after `warm` exchanges *)
 
 Definition kind_of (mech : N) : ckind := if mech =? 0 then KCurve else KNoise.
 
@@ -192,6 +193,20 @@ Definition c18_model (c : c18case) : obs :=
         end in
       let w1 := first 1 in let w2 := first 2 in
       [[70; 1; b2n' (negb (len w1 =? 0) && bytes_eqb w1 w2); len w1; len w2]]
+  | CReflect mech dir warm msg =>
+      let server := negb (dir =? 0) in
+      let c0 := session_cipher mech server 1 in
+      let c1 := set_rn (set_sn c0 (c_sn c0 + warm)) (c_rn c0 + warm) in      (* `warm` records sent and received *)
+      match write_msg_multipart N toy_seal c1 (map cfr_frame msg) with
+      | (SOk w, c2) =>
+          let l := N.to_nat (nth 0 w 0 * 256 + nth 1 w 0) in
+          let ct := firstn l (skipn 2 w) in
+          match decrypt N toy_open c2 ct with
+          | DcOk _ _ => [[62; 1; 2 * warm; 1; 0; 0]]
+          | _ => [[62; 1; 2 * warm; 0; 1; 1]]
+          end
+      | _ => [[62; 1; 2 * warm; 0; 0; 0]]
+      end
   end.
 
 Definition c18_mismatches (cases : list (N * c18case * obs)) : list N :=
